@@ -254,7 +254,7 @@ func interleaved(v victim, h *hostileRT) *gl.Outcome {
 
 func (Prop) RunBatch(c *vp.Child) {
 	if c.Stage == "interleave" {
-		vs := victimsFor(c, c.Pick(1200, 12000), 0)
+		vs := victimsFor(c, c.Pick(1200, 4000), 0)
 		r := c.Rand("hostile")
 		// outcomes of the templates in a process where no other runtime has
 		// existed yet; compared again at the end of the batch, after hundreds of
@@ -333,12 +333,12 @@ func (Prop) RunBatch(c *vp.Child) {
 		return
 	}
 	// concurrent stages
-	rounds := c.Pick(20, 60)
+	rounds := c.Pick(20, 30)
 	if !strings.Contains(c.Stage, "race") {
-		rounds = c.Pick(20, 200)
+		rounds = c.Pick(20, 80)
 	}
 	r := c.Rand("conc")
-	vs := victimsFor(c, 40+c.Pick(40, 400), int64(c.Batch))
+	vs := victimsFor(c, 40+c.Pick(40, 120), int64(c.Batch))
 	want := make([]string, len(vs))
 	for i, v := range vs {
 		want[i] = digest(solo(v))
